@@ -62,7 +62,12 @@ def nightly_sysroot():
 
 
 def ensure_driver():
-    if not os.path.exists(DRIVER):
+    stale = not os.path.exists(DRIVER)
+    if not stale:
+        srcdir = os.path.join(VERIF, "extractor", "src")
+        newest = max(os.path.getmtime(os.path.join(srcdir, f)) for f in os.listdir(srcdir))
+        stale = newest > os.path.getmtime(DRIVER)
+    if stale:
         subprocess.check_call(["cargo", "build", "--release", "--offline"],
                               cwd=os.path.join(VERIF, "extractor"))
 
